@@ -180,12 +180,15 @@ def run_case(case):
                     viol[sig] = {'signature': sig, 'what': obl.failed[0][0], 'vars': [vars1, vars2], 'prior': True}
     # mismatching meshes: must be refused before anything is written
     if case.get('mismatch'):
-        for name, ref_bad in mismatches(mesh, case, lo, dx0):
-            def path(ctx, ref_bad=ref_bad, name=name):
+        for mm in mismatches(mesh, case, lo, dx0):
+            name, ref_bad = mm[0], mm[1]
+            ref_good = mm[2] if len(mm) > 2 else ref1
+
+            def path(ctx, ref_bad=ref_bad, name=name, ref_good=ref_good):
                 comb = mods['amr_kitchen.combine.combine']
                 PlotfileCooker = mods['amr_kitchen.plotfile_cooker'].PlotfileCooker
                 fs = SymFS()
-                ref1.write_symfs(fs, '/work/plt1')
+                ref_good.write_symfs(fs, '/work/plt1')
                 ref_bad.write_symfs(fs, '/work/plt2')
                 obl = Obl(ctx)
                 with patch.Patched(mods, fs), common.quiet():
@@ -216,15 +219,16 @@ def run_case(case):
         if not common.claim('C06', sig):
             continue
         fs = SymFS()
-        ref1.write_symfs(fs, '/work/plt1')
         if 'mismatch' in v:
-            ref_bad = dict(mismatches(mesh, case, lo, dx0))[v['mismatch']]
-            ref_bad.write_symfs(fs, '/work/plt2')
+            mm = [m_ for m_ in mismatches(mesh, case, lo, dx0) if m_[0] == v['mismatch']][0]
+            (mm[2] if len(mm) > 2 else ref1).write_symfs(fs, '/work/plt1')
+            mm[1].write_symfs(fs, '/work/plt2')
             run = ("from amr_kitchen.combine.combine import combine\nfrom amr_kitchen import PlotfileCooker\n"
                    "try:\n    combine(PlotfileCooker('plt1'), PlotfileCooker('plt2'), pltout='out')\n    RESULT = 1.0\n"
                    "except Exception:\n    RESULT = 1.0 if os.path.exists('out') else 0.0\n")
             expd = {'kind': 'value', 'close': 0.0}
         else:
+            ref1.write_symfs(fs, '/work/plt1')
             ref2.write_symfs(fs, '/work/plt2')
             run = ("from amr_kitchen.combine.combine import combine\nfrom amr_kitchen import PlotfileCooker\n"
                    "combine(PlotfileCooker('plt1'), PlotfileCooker('plt2'), pltout='out', vars1=%r, vars2=%r)\n" % tuple(v['vars']))
@@ -271,6 +275,37 @@ def mismatches(mesh, case, lo, dx0):
     # the same physical boxes at twice the resolution: every box spans another index range (and holds 8x the cells)
     fine = [[(tuple(2 * x for x in blo), tuple(2 * x + 1 for x in bhi)) for blo, bhi in lvb] for lvb in boxes]
     out.append(('same-boxes-finer-indices', Ref('q', 3, case['fields2'], tuple(2 * n for n in mesh.ncell0), fine, lo=lo, dx0=[x / 2 for x in dx0])))
+    if len(boxes) > 1:
+        # the coarsest level cut differently, every finer level identical
+        (blo, bhi) = boxes[0][0]
+        for d in (1, 2, 0):
+            n = bhi[d] - blo[d] + 1
+            if n >= 2 and n % 2 == 0 and (blo[d] + n // 2) % 2 == 0:
+                a = (blo, tuple(blo[e] + n // 2 - 1 if e == d else bhi[e] for e in range(3)))
+                b = (tuple(blo[e] + n // 2 if e == d else blo[e] for e in range(3)), bhi)
+                out.append(('coarse-level-recut', Ref('q', 3, case['fields2'], mesh.ncell0, [[a, b] + boxes[0][1:]] + boxes[1:], lo=lo, dx0=dx0)))
+                break
+    if len(boxes) > 1 and len(boxes[0]) == 2:
+        # the same number of coarse boxes, the domain cut along another axis (finer levels identical)
+        (alo, ahi), (blo, bhi) = boxes[0]
+        dom_lo = tuple(min(alo[e], blo[e]) for e in range(3))
+        dom_hi = tuple(max(ahi[e], bhi[e]) for e in range(3))
+        if dom_lo == (0, 0, 0) and dom_hi == tuple(n - 1 for n in mesh.ncell0):
+            cut = [e for e in range(3) if alo[e] != blo[e]]
+            for d in range(3):
+                n = mesh.ncell0[d]
+                if d not in cut and n >= 2 and n % 2 == 0 and (n // 2) % 2 == 0:
+                    a = (dom_lo, tuple(n // 2 - 1 if e == d else dom_hi[e] for e in range(3)))
+                    b = (tuple(n // 2 if e == d else 0 for e in range(3)), dom_hi)
+                    out.append(('coarse-level-cut-along-another-axis', Ref('q', 3, case['fields2'], mesh.ncell0, [[a, b]] + boxes[1:], lo=lo, dx0=dx0)))
+                    break
+    # the same pairs far from the origin (coordinates of a few million with boxes of a few units: differences between box bounds
+    # are tiny relative to the bounds themselves)
+    far = [x + 4194304.0 for x in lo]
+    if lo[0] < 4e6:
+        good = Ref('p', 3, case['fields1'], mesh.ncell0, mesh.boxes, layout=case['layout1'], lo=far, dx0=dx0)
+        for name, rb in mismatches(mesh, case, far, dx0):
+            out.append((name + '/far-from-origin', rb, good))
     return out
 
 
